@@ -55,7 +55,7 @@ def reference(n, edges, layer):
     return uf
 
 
-def run_layer(n, edges, layer, dup=None, names="plain"):
+def run_layer(n, edges, layer, dup=None, names="plain", partial=False):
     """one call of valve_segments (+ attributes) on the real code; returns (violations, nsegments)."""
     import networkx as nx, pandas as pd, warnings
     import wntr
@@ -84,7 +84,7 @@ def run_layer(n, edges, layer, dup=None, names="plain"):
             rows.append(dict(rows[k]))
     vl = pd.DataFrame(rows, columns=["link", "node"])
     viol = []
-    tag = ("dup:" if dup is not None else "") + ("" if names == "plain" else "names-%s:" % names)
+    tag = ("dup:" if dup is not None else "") + ("" if names == "plain" else "names-%s:" % names) + ("partial-tables:" if partial else "")
     with warnings.catch_warnings():
         warnings.simplefilter("ignore")
         ns, ls, sizes = wntr.metrics.valve_segments(G, vl)
@@ -130,8 +130,12 @@ def run_layer(n, edges, layer, dup=None, names="plain"):
     if viol or not layer:
         return viol, nseg
     # ---- attributes, on the frame as valve_segments left it (duplicates dropped in place)
-    dem = pd.Series({nname(i): VALS[i % 3] for i in range(n)})
-    ln = pd.Series({ename(j): VALS[(j + 1) % 3] for j in range(len(edges))})
+    # partial: the attribute tables cover only part of the elements, as the documented inputs do (average_expected_demand
+    # lists junctions only, query_link_attribute('length') pipes only); an element without an entry contributes nothing
+    has_d = lambda i: not (partial and i % 3 == 2)
+    has_l = lambda j: not (partial and j % 2 == 1)
+    dem = pd.Series({nname(i): VALS[i % 3] for i in range(n) if has_d(i)})
+    ln = pd.Series({ename(j): VALS[(j + 1) % 3] for j in range(len(edges)) if has_l(j)})
     try:
         with warnings.catch_warnings():
             warnings.simplefilter("ignore")
@@ -152,10 +156,10 @@ def run_layer(n, edges, layer, dup=None, names="plain"):
         else:
             both = (sn, sl)
             cnt = sum(1 for k2, (j2, v2) in enumerate(layer) if k2 != k and (seg(("L", j2)) in both or seg(("N", v2)) in both))
-            dn = sum(VALS[i % 3] for i in range(n) if seg(("N", i)) == sn)
-            dl = sum(VALS[i % 3] for i in range(n) if seg(("N", i)) == sl)
-            l_n = sum(VALS[(jj + 1) % 3] for jj in range(len(edges)) if seg(("L", jj)) == sn)
-            l_l = sum(VALS[(jj + 1) % 3] for jj in range(len(edges)) if seg(("L", jj)) == sl)
+            dn = sum(VALS[i % 3] for i in range(n) if seg(("N", i)) == sn and has_d(i))
+            dl = sum(VALS[i % 3] for i in range(n) if seg(("N", i)) == sl and has_d(i))
+            l_n = sum(VALS[(jj + 1) % 3] for jj in range(len(edges)) if seg(("L", jj)) == sn and has_l(jj))
+            l_l = sum(VALS[(jj + 1) % 3] for jj in range(len(edges)) if seg(("L", jj)) == sl and has_l(jj))
             ed = 0.0 if dn == 0 and dl == 0 else (dn + dl) / max(dn, dl) - 1
             el = 0.0 if l_n == 0 and l_l == 0 else (l_n + l_l) / max(l_n, l_l) - 1
             exp = (cnt, ed, el)
@@ -171,7 +175,7 @@ def run_layer(n, edges, layer, dup=None, names="plain"):
 def run_case(s):
     n, edges = s["n"], [tuple(e) for e in s["edges"]]
     if "layer" in s:      # replay of a single layer
-        v, _ = run_layer(n, edges, [tuple(x) for x in s["layer"]], tuple(s["dup"]) if s.get("dup") else None, s.get("names", "plain"))
+        v, _ = run_layer(n, edges, [tuple(x) for x in s["layer"]], tuple(s["dup"]) if s.get("dup") else None, s.get("names", "plain"), bool(s.get("partial")))
         return {"viol": v}
     inc = [(j, v) for j, (a, b) in enumerate(edges) for v in (a, b)]
     viol, seen = [], set()
@@ -182,8 +186,8 @@ def run_case(s):
             variants = [None]
             if 1 <= len(layer) <= 3:
                 variants += [(k, w) for k in range(len(layer)) for w in ("after", "end")]
-            for dup, names in [(d, "plain") for d in variants] + [(None, "prefix"), (None, "shared")]:
-                v, nseg = run_layer(n, edges, layer, dup, names)
+            for dup, names, partial in [(d, "plain", False) for d in variants] + [(None, "prefix", False), (None, "shared", False), (None, "plain", True)]:
+                v, nseg = run_layer(n, edges, layer, dup, names, partial)
                 counts["layers"] += 1
                 if dup:
                     counts["layers_with_dup"] += 1
@@ -192,7 +196,7 @@ def run_case(s):
                 for x in v:
                     if x["key"] not in seen:
                         seen.add(x["key"])
-                        x["spec"] = {"n": n, "edges": s["edges"], "layer": [list(q) for q in layer], "dup": list(dup) if dup else None, "names": names}
+                        x["spec"] = {"n": n, "edges": s["edges"], "layer": [list(q) for q in layer], "dup": list(dup) if dup else None, "names": names, "partial": partial}
                         viol.append(x)
     return {"viol": viol, "counts": counts, "nontrivial": counts["multi_segment_layers"] > 0,
             "outcome": "segments>1:%d" % min(counts["multi_segment_layers"], 1), "bulk": counts["layers"], "bulk_nontrivial": counts["multi_segment_layers"]}
